@@ -75,13 +75,21 @@ EmitMon(x) == /\ \A m \in MonReqsT : PrintT(<<"CASE", ToJson([mode |-> "mon", t 
 \* ---- notifications a client receives for its monitor of table T: sound ones, ones naming a table or a column the
 \* schema does not have, ill-typed rows, and every tree one edit away from two sound ones
 RowU == "00000000-0000-4000-8000-00000000000a"
+RowV == "00000000-0000-4000-8000-00000000000b"
 Notifs2 == TU2 \cup {O([T |-> O(RowU :> O([insert |-> O([c1 |-> N(5), c5 |-> S("n")])]))]),
                      O([Nosuch |-> O(RowU :> O([insert |-> O([c1 |-> N(1)])]))]),
                      O([T |-> O(RowU :> O([insert |-> O([nocol |-> N(1)])]))]),
                      O([T |-> O(RowU :> O([modify |-> O([c1 |-> N(1)])]))]),
                      O([T |-> O(RowU :> O([delete |-> Z]))]),
                      O([T |-> O(RowU :> O([insert |-> O([c1 |-> S("x"), c2 |-> N(1), c3 |-> S("u"), c6 |-> MapEnc(<< <<N(1), N(2)>> >>)])]))]),
-                     O([T |-> O(RowU :> Z)]), O([T |-> Z])}
+                     O([T |-> O(RowU :> Z)]), O([T |-> Z]),
+                     \* a row update with more than one member, or none, for a row the client does not hold
+                     O([T |-> O(RowV :> O([insert |-> O([c1 |-> N(1)]), modify |-> O([c1 |-> N(2)])]))]),
+                     O([T |-> O(RowV :> O([initial |-> O([c1 |-> N(1)]), modify |-> O([c1 |-> N(2)])]))]),
+                     O([T |-> O(RowV :> O([modify |-> O([c1 |-> N(2)]), delete |-> Z]))]),
+                     O([T |-> O(RowV :> O([insert |-> O([c1 |-> N(1)]), delete |-> Z]))]),
+                     O([T |-> O(RowV :> O([initial |-> O([c1 |-> N(1)]), insert |-> O([c1 |-> N(3)]), modify |-> O([c1 |-> N(2)]), delete |-> Z]))]),
+                     O([T |-> O(RowV :> O(<<>>))])}
 Notifs1 == TU1 \cup {O([Nosuch |-> O(RowU :> O([new |-> O([c1 |-> N(1)])]))]),
                      O([T |-> O(RowU :> O([new |-> O([nocol |-> N(1)])]))]),
                      O([T |-> O(RowU :> O([old |-> O([c1 |-> N(1)])]))]),
